@@ -7,6 +7,9 @@ spec:   spec/MediaCache.tla       one request: handler kind, body kind, value/er
         spec/MediaCacheResp.tla   response side: assignments / in-place mutation + re-assignment / render_body() /
                                   data / text on one Response; the body sent is the document as LAST assigned
         spec/MC_MediaCacheResp.tla, spec/MediaCacheRespTrace.tla   its bounded instance and trace judge
+        spec/MediaCacheForm.tla   form media: everything urlencode(doseq=True) accepts (dict / sequence of pairs, scalar /
+                                  list / tuple values, repeated names) -> wire parameters -> the mapping read back
+        spec/MC_MediaCacheForm.tla, spec/MediaCacheFormTrace.tla   its bounded instance and trace judge
 legs:   M  exhaustive TLC check (complete state graph) + coverage guard + wrong-design switches
         A  every TLC behaviour (stack x content type x body kind x 4 accesses) is run as a whole request
            through the raw WSGI / ASGI drivers under several chunkings; valid bodies are what a real app
@@ -52,6 +55,7 @@ CT = {
     'vnd_json': 'application/vnd.api+json; charset=utf-8',
     'form': 'application/x-www-form-urlencoded',
     'form_charset': 'application/x-www-form-urlencoded; charset=utf-8',
+    'custom': 'application/x-custom',
     'text': 'text/plain',
     'none': None,
 }
@@ -61,6 +65,7 @@ CT_RANDOM = [
     ('application/json; version=2; charset=utf-8', 'json'), ('application/vnd.api+json', 'json'),
     ('application/vnd.api+json; ext=bulk', 'json'), ('*/*', 'json'), (None, 'json'),
     ('application/x-www-form-urlencoded', 'form'), ('application/x-www-form-urlencoded; charset=utf-8', 'form'),
+    ('application/x-custom', 'json'), ('application/x-custom; v=1', 'json'),
     ('text/plain', 'none'), ('application/xml', 'none'), ('application/jsonx', 'none'), ('image/png; q=1', 'none'),
 ]
 
@@ -155,6 +160,14 @@ class Script:
         self.loads = 0
 
 
+class HookBoom(KeyError):
+    """raised by the object_hook of the JSON handler's loads function"""
+
+
+class CustomBoom(RuntimeError):
+    """raised by the user's handler class"""
+
+
 class Harness:
     def __init__(self):
         import falcon
@@ -164,9 +177,33 @@ class Harness:
         self.s = Script()
         h = self
 
+        def hook(obj):
+            # the documented JSONHandler(loads=partial(json.loads, object_hook=hook)) whose hook fails
+            if '__boom__' in obj:
+                raise HookBoom('__boom__')
+            return obj
+
         def loads(x):
             h.s.loads += 1
-            return json.loads(x)
+            return json.loads(x, object_hook=hook)
+
+        class CustomHandler(media.BaseHandler):
+            """a user's handler class: JSON semantics, and its own exception for bodies it dislikes"""
+
+            def serialize(self, media, content_type=None):
+                return json.dumps(media, ensure_ascii=False).encode()
+
+            def deserialize(self, stream, content_type, content_length):
+                data = stream.read()
+                h.s.loads += 1
+                if not data:
+                    raise falcon.MediaNotFoundError('custom')
+                if b'__boom__' in data:
+                    raise CustomBoom('this handler failed')
+                try:
+                    return json.loads(data.decode())
+                except ValueError as ex:
+                    raise falcon.MediaMalformedError('custom') from ex
 
         def classify(ex):
             if isinstance(ex, falcon.MediaNotFoundError):
@@ -196,6 +233,12 @@ class Harness:
                     e['errsame'] = st.first_err is None or exc is st.first_err
                     if st.first_err is None:
                         st.first_err = exc
+                elif isinstance(exc, (HookBoom, CustomBoom)):
+                    # the handler's own failure: not an HTTP error, reaches the client as a 500
+                    e['out'], e['ek'], e['status'] = 'err', 'custom', 500
+                    e['errsame'] = st.first_err is None or exc is st.first_err
+                    if st.first_err is None:
+                        st.first_err = exc
                 else:
                     e['out'], e['info'] = 'exc', repr(exc)
             elif d and val is DEFAULT:
@@ -203,6 +246,7 @@ class Harness:
             else:
                 if not st.have_val:
                     st.have_val, st.first_val = True, val
+                    h.s.first_value = val
                 e['same'] = val is st.first_val
                 e['eq'] = h.s.has_expect and strict_eq(val, h.s.expect)
                 if not e['eq']:
@@ -270,43 +314,56 @@ class Harness:
 
         self.rs = None
         self.reads = 0
-        self.wapp = falcon.App()
-        self.aapp_inner = falcon.asgi.App()
-        for app in (self.wapp, self.aapp_inner):
-            for opts in (app.req_options, app.resp_options):
-                opts.media_handlers[falcon.MEDIA_JSON] = media.JSONHandler(loads=loads)
-                opts.media_handlers['application/vnd.api+json'] = media.JSONHandler(loads=loads)
-        self.wapp.add_route('/m', WRes())
-        self.aapp_inner.add_route('/m', ARes())
-        self.wapp.add_route('/r', WResp())
-        self.aapp_inner.add_route('/r', AResp())
 
-        async def aapp(scope, receive, send):
-            async def recv():
-                h.reads += 1
-                return await receive()
-            await h.aapp_inner(scope, recv, send)
-        self.aapp = aapp
+        class CustomResponse(falcon.Response):
+            """response_type=...: a trivial subclass"""
 
-    def call(self, stack, req):
-        res = drivers.wsgi_call(self.wapp, req) if stack == 'wsgi' else drivers.asgi_call(self.aapp, req)
+        class CustomAResponse(falcon.asgi.Response):
+            """response_type=...: a trivial subclass (the ASGI app then awaits render_body() itself)"""
+
+        def wrap(inner):
+            async def aapp(scope, receive, send):
+                async def recv():
+                    h.reads += 1
+                    return await receive()
+                await inner(scope, recv, send)
+            return aapp
+        self.apps = {}
+        for custom in (False, True):
+            wapp = falcon.App(response_type=CustomResponse) if custom else falcon.App()
+            ainner = falcon.asgi.App(response_type=CustomAResponse) if custom else falcon.asgi.App()
+            for app in (wapp, ainner):
+                for opts in (app.req_options, app.resp_options):
+                    opts.media_handlers[falcon.MEDIA_JSON] = media.JSONHandler(loads=loads)
+                    opts.media_handlers['application/vnd.api+json'] = media.JSONHandler(loads=loads)
+                    opts.media_handlers['application/x-custom'] = CustomHandler()
+            wapp.add_route('/m', WRes())
+            ainner.add_route('/m', ARes())
+            wapp.add_route('/r', WResp())
+            ainner.add_route('/r', AResp())
+            self.apps[('wsgi', custom)] = wapp
+            self.apps[('asgi', custom)] = wrap(ainner)
+
+    def call(self, stack, req, custom=False):
+        app = self.apps[(stack, bool(custom))]
+        res = drivers.wsgi_call(app, req) if stack == 'wsgi' else drivers.asgi_call(app, req)
         if res.errors:
             raise MachineryError('protocol monitor: %r' % (res.errors,))
         return res
 
-    def render(self, stack, ctype, doc):
+    def render(self, stack, ctype, doc, custom=False):
         """resp.media = doc on a real app -> (body, Content-Type sent).  resp.media = None means
         "no media", so the body of the document null is written down directly."""
         if doc is None:
             return b'null', ctype or 'application/json', None
         self.s = Script()
         self.s.doc, self.s.ctype = doc, ctype
-        res = self.call(stack, drivers.Req('GET', target=b'/m'))
+        res = self.call(stack, drivers.Req('GET', target=b'/m'), custom)
         if res.exc is not None or res.status != 200:
             return None, None, 'rendering failed: status %r exc %r body %r' % (res.status, res.exc, res.body[:100])
         return res.body, res.header('content-type'), None
 
-    def request(self, stack, ctype, body, chunks, calls, expect=None, has_expect=False, reraise=True, framing='length'):
+    def request(self, stack, ctype, body, chunks, calls, expect=None, has_expect=False, reraise=True, framing='length', custom=False):
         self.s = Script()
         self.s.calls, self.s.expect, self.s.has_expect, self.s.reraise = list(calls), expect, has_expect, reraise
         hs = [] if ctype is None else [('Content-Type', ctype)]
@@ -315,7 +372,7 @@ class Harness:
             if stack != 'asgi':
                 raise MachineryError('chunked framing is only expressible on ASGI here')
             hs.append(('Transfer-Encoding', 'chunked'))
-        res = self.call(stack, drivers.Req('POST', target=b'/m', headers=hs, body=body, chunks=chunks))
+        res = self.call(stack, drivers.Req('POST', target=b'/m', headers=hs, body=body, chunks=chunks), custom)
         evs = self.s.events
         wire = -1
         if res.exc is not None:
@@ -333,7 +390,7 @@ class RespScript:
     decoder can tell which version a body is a rendering of; a snapshot is taken at every assignment."""
 
     def __init__(self, ops, kind):
-        self.ops, self.kind = list(ops), kind        # kind: 'dict' | 'list' | 'form'
+        self.ops, self.kind = list(ops), kind        # kind: 'dict' | 'list' | 'form' | 'falsy'
         self.ver = 0
         self.snap = {}
         self.events = []
@@ -342,7 +399,14 @@ class RespScript:
         if self.kind == 'form':
             resp.content_type = 'application/x-www-form-urlencoded'
 
+    FALSY = ([], {}, 0, False, '', 0.0)     # documents like any other; version v is FALSY[v - 1] (at most 6 versions)
+
     def make(self, v):
+        if self.kind == 'falsy':
+            import copy
+            if v > len(self.FALSY):
+                raise MachineryError('falsy response histories have at most %d versions' % len(self.FALSY))
+            return copy.deepcopy(self.FALSY[v - 1])
         if self.kind == 'dict':
             return {'ver': v, 'items': [v, 'é\U0001F600'], 'n': None, 'nested': {'k': [v]}}
         if self.kind == 'list':
@@ -350,6 +414,8 @@ class RespScript:
         return {'ver': str(v), 'k': 'x y&z=%', 'l': ['1', str(v)]}
 
     def mutate(self, d, v):
+        if self.kind == 'falsy':
+            raise MachineryError('a falsy document cannot be mutated in place and stay falsy')
         if self.kind == 'dict':
             d['ver'] = v
             d['items'].append(v)
@@ -412,16 +478,18 @@ class RespScript:
             if self.kind == 'form':
                 return 'media', int(urllib.parse.parse_qs(body.decode('ascii'))['ver'][0])
             d = json.loads(body.decode('utf-8'))
+            if self.kind == 'falsy':
+                return 'media', [i + 1 for i, f in enumerate(self.FALSY) if strict_eq(f, d)][0]
             return 'media', int(d['ver'] if self.kind == 'dict' else d[0])
         except Exception:  # noqa
             return 'garbled', -1
 
 
-def run_response(H, stack, ops, kind):
+def run_response(H, stack, ops, kind, custom=False):
     """-> (events, sent [kind, v], eq): one GET whose responder makes the statements; the body that reached the
     client is read with the trusted decoder and, if it is media, sent back as a request on the other stack."""
     rs = H.rs = RespScript(ops, kind)
-    res = H.call(stack, drivers.Req('GET', target=b'/r'))
+    res = H.call(stack, drivers.Req('GET', target=b'/r'), custom)
     if res.exc is not None or res.status != 200:
         return rs.events, {'kind': 'failed', 'v': res.status or 0}, False, 'status %r exc %r' % (res.status, res.exc)
     k, v = rs.read(res.body)
@@ -436,7 +504,128 @@ def run_response(H, stack, ops, kind):
     return rs.events, {'kind': k, 'v': v}, eq, info
 
 
-RESP_KINDS = ('dict', 'list', 'form')
+# ---- form media: everything urlencode(doseq=True) accepts (MediaCacheForm) --------------------------
+FORM_CATS = {
+    0: ['a', 'hello', 'A-Z_z.~', 'v'],
+    1: ['a b', 'x&y=z', '1+1=2', '100%', 'a,b,c', '%41', 'q?#/;:@'],
+    2: [''],
+    3: ['é', '漢字', 'Ж'],
+    4: ['\U0001F600', 'a\U00010348'],
+    5: [0, 7, -12, 10 ** 20],
+    6: [True, False],
+    7: [b'raw', 'café'.encode('utf-8'), b'a b&c=d'],
+    8: [0.5, -1.25, 1e-07, 3.0],
+}
+FORM_NAMES = ['n1', 'a b&=', 'é', 7, b'bk', 'x', 'Name', '%zz', 1.5]
+
+
+def form_text(v):
+    """trusted reading of what one scalar is on the wire: bytes as they are, everything else str()"""
+    return v.decode('utf-8') if isinstance(v, bytes) else str(v)
+
+
+def build_form(media, scal, names):
+    """abstract media (MediaCacheForm) -> the Python object handed to resp.media"""
+    items = []
+    for it in media['items']:
+        v = it['v']
+        xs = [scal[x] for x in v['items']]
+        items.append((names[it['n']], xs[0] if v['k'] == 's' else list(xs) if v['k'] == 'l' else tuple(xs)))
+    return dict(items) if media['form'] == 'dict' else items
+
+
+def form_expected(back, scal, names):
+    return {form_text(names[e['n']]): (form_text(scal[e['xs'][0]]) if len(e['xs']) == 1 else [form_text(scal[x]) for x in e['xs']])
+            for e in back}
+
+
+def form_roundtrip(H, rng, media, scal, names, i):
+    """-> (out, value read back, info): rendered by a real app, read back on the other stack"""
+    obj = build_form(media, scal, names)
+    rstack = ('wsgi', 'asgi')[i % 2]
+    qstack = ('wsgi', 'asgi')[(i // 2) % 2]
+    ct = ('application/x-www-form-urlencoded', 'application/x-www-form-urlencoded; charset=utf-8')[(i // 4) % 2]
+    body, sct, err = H.render(rstack, ct, obj, custom=(i // 8) % 2)
+    if err:
+        return 'renderfail', None, '%s: %s' % (rstack, err), obj
+    framing = 'chunked' if qstack == 'asgi' and i % 3 == 0 else 'length'
+    evs, wire = H.request(qstack, sct, body, [5] if qstack == 'asgi' else None, [('get', False), ('media', False)], framing=framing)
+    H.last_form_body = body
+    if len(evs) != 2 or evs[0]['out'] != 'val' or not evs[1]['same']:
+        return 'readfail', None, 'read back on %s: %r (wire %s) body %r' % (qstack, [(e['out'], e['ek'], e['info']) for e in evs], wire, body[:200]), obj
+    return 'ok', H.s.first_value, 'body %r' % (body[:300],), obj
+
+
+def leg_form(ctx, H):
+    rng = ctx.rng
+    # ---- M + A: every media of the bound, TLC says what is read back
+    r = ctx.tlc('MC_MediaCacheForm', 'MC_MediaCacheForm.cfg', coverage=True, timeout=600, workers=4)
+    ctx.require_coverage(r, ['Serialize', 'Deserialize'])
+    cases = [j for j in r.json if 'media' in j]
+    if len(cases) != 3393:
+        raise MachineryError('form cases incomplete: %d' % len(cases))
+    for i, c in enumerate(cases):
+        scal = {cat: rng.choice(vals) for cat, vals in FORM_CATS.items()}
+        names = dict(zip((1, 2), rng.sample(FORM_NAMES, 2)))
+        out, got, info, obj = form_roundtrip(H, rng, c['media'], scal, names, i)
+        want = form_expected(c['back'], scal, names)
+        case = {'leg': 'form-A', 'media': repr(obj), 'abstract': c['media'], 'expected': want}
+        ctx.case(case, nontrivial=True, key=('form', i))
+        if out != 'ok':
+            ctx.violation('P:exc', case, 'documented form media failed (%s): %s' % (out, info))
+        elif not strict_eq(got, want):
+            ctx.violation('P:form', case, 'read back %r, expected %r; %s' % (got, want, info))
+    ctx.traces_validated += len(cases)
+    # ---- B: random bigger medias, judged by TLC
+    traces, infos = [], []
+    for i in range(ctx.pick(400, 12000)):
+        table, texts = [], {}
+
+        def sid(v):
+            t = form_text(v)
+            if t not in texts:
+                texts[t] = len(table)
+                table.append(v)
+            elif type(table[texts[t]]) is not type(v):
+                return sid(t + '~')         # 7 and '7' read back alike: keep the table's texts distinct per id
+            return texts[t]
+        nn = rng.randint(1, 4)
+        nms = dict(zip(range(1, nn + 1), rng.sample(FORM_NAMES, nn)))
+        pairs = rng.random() < 0.5
+        items = []
+        for k in range(rng.randint(0, 5)):
+            n = rng.randint(1, nn) if pairs else k + 1
+            if n > nn:
+                break
+            kind = rng.choice('ssslt')
+            xs = [sid(rng.choice(FORM_CATS[rng.randrange(9)])) for _ in range(1 if kind == 's' else rng.randint(0, 4))]
+            items.append({'n': n, 'v': {'k': kind, 'items': xs}})
+        media = {'form': 'pairs' if pairs else 'dict', 'items': items}
+        scal = dict(enumerate(table))
+        out, got, info, obj = form_roundtrip(H, rng, media, scal, nms, i)
+        back, single = [], []
+        if out == 'ok':
+            if not isinstance(got, dict):
+                out = 'readfail'
+            else:
+                rn = {form_text(v): k for k, v in nms.items()}
+                for k, v in got.items():
+                    vs = v if isinstance(v, list) else [v]
+                    back.append({'n': rn.get(k, -1), 'xs': [texts.get(x, -1) if isinstance(x, str) else -2 for x in vs]})
+                    single.append(not isinstance(v, list))
+        ctx.case({'leg': 'form-B', 'media': repr(obj)}, nontrivial=True, key=('formb', i))
+        traces.append({'media': media, 'out': out, 'back': back, 'single': single})
+        infos.append({'leg': 'form-B', 'media': repr(obj), 'abstract': media, 'read_back': repr(got), 'info': info})
+    verdicts = ctx.judge('MediaCacheFormTrace', traces, timeout=900, chunk=4000)
+    for case, v in zip(infos, verdicts):
+        if v != 'ok':
+            ctx.violation(v.split('@')[0], case, 'form round trip judged %s: media %s read back %s; %s' % (v, case['media'], case['read_back'], case['info']))
+    ctx.extra['form_medias'] = len(cases)
+    ctx.extra['random_form_medias'] = len(traces)
+    ctx.progress('form legs done: %d medias, %d random' % (len(cases), len(traces)))
+
+
+RESP_KINDS = ('dict', 'falsy', 'list', 'form')
 
 
 def leg_resp(ctx, H):
@@ -450,16 +639,19 @@ def leg_resp(ctx, H):
     # ---- A: every behaviour of the bound, on both stacks
     ra = ctx.tlc('MC_MediaCacheResp', 'MC_MediaCacheRespA.cfg' if ctx.quick else 'MC_MediaCacheRespA5.cfg', timeout=600, workers=4, count=False)
     behs = list({digest(j): j for j in ra.json if 'ev' in j}.values())
-    if len(behs) < (2900 if ctx.quick else 23000):
+    if len(behs) < (5900 if ctx.quick else 47000):
         raise MachineryError('response behaviours incomplete: %d' % len(behs))
     n = 0
     for bi, b in enumerate(behs):
         ops = [e['op'] for e in b['ev']]
+        custom = b['rtype'] == 'custom'
         for si, stack in enumerate(('wsgi', 'asgi')):
-            kind = RESP_KINDS[(bi + si) % 3]
-            evs, sent, eq, info = run_response(H, stack, ops, kind)
+            kind = RESP_KINDS[(bi // 2 + si) % 4]
+            if kind == 'falsy' and 'mutsame' in ops:
+                kind = 'dict'
+            evs, sent, eq, info = run_response(H, stack, ops, kind, custom)
             n += 1
-            case = {'leg': 'resp-A', 'stack': stack, 'kind': kind, 'ops': ops, 'spec': b}
+            case = {'leg': 'resp-A', 'stack': stack, 'response_type': b['rtype'], 'kind': kind, 'ops': ops, 'spec': b}
             ctx.case(case, nontrivial=len(ops) >= 2, key=('resp', bi, stack))
             if sent['kind'] == 'failed':
                 ctx.violation('P:exc', case, 'response failed: %s' % info)
@@ -502,13 +694,19 @@ def leg_resp(ctx, H):
         if rng.random() < 0.7:
             ops += rng.choice((['cleardata', 'cleartext'], ['cleartext', 'cleardata', 'render']))
         stack, kind = ('wsgi', 'asgi')[i % 2], rng.choice(RESP_KINDS)
-        evs, sent, eq, info = run_response(H, stack, ops, kind)
-        case = {'leg': 'resp-B', 'stack': stack, 'kind': kind, 'ops': ops}
+        if kind == 'falsy':
+            if ops.count('new') + ops.count('mutsame') > 6:
+                kind = 'list'
+            else:
+                ops = ['new' if o == 'mutsame' else o for o in ops]
+        custom = (i // 2) % 2 == 1
+        evs, sent, eq, info = run_response(H, stack, ops, kind, custom)
+        case = {'leg': 'resp-B', 'stack': stack, 'response_type': 'custom' if custom else 'default', 'kind': kind, 'ops': ops}
         ctx.case(case, nontrivial=True, key=('respb', i))
         if sent['kind'] == 'failed':
             ctx.violation('P:exc', case, 'response failed: %s' % info)
             continue
-        traces.append({'ev': evs, 'sent': sent, 'eq': eq})
+        traces.append({'rtype': case['response_type'], 'ev': evs, 'sent': sent, 'eq': eq})
         cases.append(dict(case, events=evs, sent=sent, info=info))
     verdicts = ctx.judge('MediaCacheRespTrace', traces, timeout=900, chunk=4000)
     for case, v in zip(cases, verdicts):
@@ -538,6 +736,11 @@ def has_special_float(v):
     if isinstance(v, dict):
         return any(has_special_float(x) for x in v.values())
     return False
+
+
+def boomify(doc, rng):
+    """a document on which the handlers of this harness fail with their own exception"""
+    return rng.choice(({'a': doc, '__boom__': 1}, [doc, {'x': {'__boom__': []}}], {'outer': [{'__boom__': None}], 'd': doc}))
 
 
 def truncate_json(body, rng):
@@ -594,6 +797,8 @@ def compare_access(ctx, e, w, case, first_parse_done, check_eq):
         return ctx.violation('P:touch', case, 'the body stream was read again')
     if e['nparse'] > 1:
         return ctx.violation('P:reparse', case, 'the handler parsed %d times' % e['nparse'])
+    if e['out'] == 'err' and w['ek'] == 'custom' and not e['errsame']:
+        return ctx.violation('P:errsame', case, "the handler's own exception was not re-raised as the same object")
     if e['out'] == 'err' and w['ek'] != 'unsupported' and not e['errsame']:
         ctx.detail('D:errid', case, 'equal error but a different exception object')
     return False
@@ -607,7 +812,12 @@ def run(ctx):
                         'engine/drivers.py (PEP 3333 / ASGI drivers and protocol monitors)']
     ctx.assumptions = ['documents: JSON values without NaN/Infinity, lone surrogates, non-string keys, tuples; the body of a top-level '
                        'null is written directly as b"null" (resp.media = None means no media)',
-                       'form mappings: non-empty names -> str | list of >= 2 str (a one-element list is read back as a string)',
+                       'form mappings in the JSON-like legs: non-empty names -> str | list of >= 2 str; the form legs (MediaCacheForm) cover dicts and '
+                       'sequences of pairs with str/int/bool/float/bytes scalars, lists and tuples, repeated names: read back as str() of '
+                       'the scalars (bytes as UTF-8), one string for a name seen once, the list of strings otherwise',
+                       'a handler failure that is not a media error (object_hook of JSONHandler(loads=...), a user handler class) is cached '
+                       'like any other: identity of the re-raised exception is P there',
+                       'every leg runs with the default Response classes and with response_type=<trivial subclass> on both stacks',
                        'whether the first access touches the stream for an empty body is not demanded; later accesses must not',
                        'identity of a re-raised cached error is model detail (D); its kind and status are demanded (P)',
                        'a 415 for an unsupported content type is raised before anything is cached (every access raises it anew)',
@@ -634,7 +844,7 @@ def run(ctx):
     tops.sort(key=digest)
     topvals = [v for sh in tops for v in inst_all(sh)]       # null, false, true, 0, "", [], {}, ... every pool scalar
     behs = list({digest(j): j for j in ra.json if 'ev' in j}.values())
-    if len(behs) != 3 * (5 * 4 + 2 * 3) * 81 or len(docs) < 700 or len(forms) < 200 or len(tops) != 12:
+    if len(behs) != 3 * (5 * 5 + 2 * 3 + 4) * 81 or len(docs) < 700 or len(forms) < 200 or len(tops) != 12:
         raise MachineryError('behaviour export incomplete: %d behaviours, %d docs, %d forms' % (len(behs), len(docs), len(forms)))
     docs.sort(key=digest)
     forms.sort(key=digest)
@@ -663,7 +873,9 @@ def run(ctx):
                 doc = inst_top(shape, rng)
             nvalid += handler == 'json' and bk == 'valid'
             rstack, rct = (other if bi % 3 else stack), (ctype if handler == 'json' else 'application/json')
-        sbody, sct, err = H.render(rstack, rct, doc)
+        if bk == 'hookfail':
+            doc = boomify(doc, rng)
+        sbody, sct, err = H.render(rstack, rct, doc, custom=bi % 2)
         case0 = {'leg': 'A', 'stack': stack, 'framing': framing, 'ctype': ctype, 'body_kind': bk, 'doc': doc, 'spec': b['ev']}
         if err:
             ctx.violation('P:serialize', case0, err)
@@ -676,6 +888,8 @@ def run(ctx):
             body, expect, has_expect = sbody, doc, True
         elif bk == 'truncated':
             body = truncate_json(sbody, rng)
+        elif bk == 'hookfail':
+            body = sbody
         else:
             body = badenc_form(sbody, rng) if handler == 'form' else badenc_json(sbody, rng)
         # "the same content type": what the rendering app sent (unless this case is about another one)
@@ -683,7 +897,7 @@ def run(ctx):
         calls = [(w['op'], w['d']) for w in b['ev']]
         for ch in chunkings(len(body), rng, nchunk, stack):
             case = dict(case0, body=list(body), chunks=ch, content_type=send_ct)
-            evs, wire = H.request(stack, send_ct, body, ch, calls, expect, has_expect, framing=framing)
+            evs, wire = H.request(stack, send_ct, body, ch, calls, expect, has_expect, framing=framing, custom=(bi // 2) % 2)
             replays += 1
             ctx.case(case, nontrivial=True, key=(bi, str(ch)))
             if len(evs) != len(calls):
@@ -709,14 +923,16 @@ def run(ctx):
     items = [('top', v) for v in topvals] + [('doc', sh) for sh in docs] + [('form', sh) for sh in forms]
     for si, (kind, shape) in enumerate(items):
         isform = kind == 'form'
-        for rep in range(2 if kind == 'top' else ctx.pick(1, 4)):
+        for rep in range(4 if kind == 'top' else ctx.pick(1, 4)):
             doc = shape if kind == 'top' else inst_form(shape, rng) if isform else inst_top(shape, rng)
-            rstack = ('wsgi', 'asgi')[(si + rep) % 2]
+            # every top-level scalar / empty container is rendered on both stacks by the default and by a custom response_type
+            rstack = ('wsgi', 'asgi')[rep % 2 if kind == 'top' else (si + rep) % 2]
+            rcustom = bool(rep // 2) if kind == 'top' else bool((si // 3 + rep) % 2)
             qstack = ('wsgi', 'asgi')[(si // 2 + rep) % 2]
             ctk = rng.choice(('form', 'form_charset')) if isform else rng.choice(('json', 'json_charset', 'vnd_json', 'none'))
-            sbody, sct, err = H.render(rstack, CT[ctk], doc)
+            sbody, sct, err = H.render(rstack, CT[ctk], doc, custom=rcustom)
             framing = 'chunked' if qstack == 'asgi' and (si + rep) % 4 < 2 else 'length'
-            case = {'leg': 'A-roundtrip', 'render_stack': rstack, 'stack': qstack, 'framing': framing, 'ctype': CT[ctk], 'doc': doc}
+            case = {'leg': 'A-roundtrip', 'render_stack': rstack, 'render_custom_response_type': rcustom, 'stack': qstack, 'framing': framing, 'ctype': CT[ctk], 'doc': doc}
             if err:
                 ctx.violation('P:serialize', case, err)
                 continue
@@ -744,6 +960,7 @@ def run(ctx):
     # ---- leg B ----------------------------------------------------------------------------------
     leg_b(ctx, H)
     leg_resp(ctx, H)
+    leg_form(ctx, H)
     probe_deep_nesting(ctx, H)
 
 
@@ -809,14 +1026,20 @@ def random_job(ctx, H, i):
     ctype, handler = rng.choice(CT_RANDOM)
     rct = ctype if handler != 'none' and ctype not in (None, '*/*') else ('application/json' if handler != 'form' else ctype)
     doc = rand_form(rng) if handler == 'form' else rand_doc(rng, rng.randint(0, 4))
-    sbody, sct, err = H.render(('wsgi', 'asgi')[rng.randrange(2)], rct, doc)
-    case = {'leg': 'B', 'stack': stack, 'ctype': ctype, 'handler': handler, 'doc': doc}
+    u = rng.random()
+    hookfail = handler == 'json' and 0.93 < u
+    if hookfail:
+        doc = boomify(doc, rng)
+    rcustom = rng.random() < 0.5
+    sbody, sct, err = H.render(('wsgi', 'asgi')[rng.randrange(2)], rct, doc, custom=rcustom)
+    case = {'leg': 'B', 'stack': stack, 'ctype': ctype, 'handler': handler, 'doc': doc, 'render_custom_response_type': rcustom}
     if err:
         ctx.violation('P:serialize', case, err)
         return None
-    u = rng.random()
     expect, has_expect = None, False
-    if u < 0.18:
+    if hookfail:
+        body, bk = sbody, 'hookfail'
+    elif u < 0.18:
         body, bk = b'', 'empty'
         if handler == 'form':
             expect, has_expect = {}, True
@@ -856,7 +1079,7 @@ def leg_b(ctx, H):
                 yield j
     for i, (stack, ctype, handler, body, bk, expect, has_expect, calls, ch, framing, reraise, case) in enumerate(jobs()):
         doc = case.get('doc')
-        if handler == 'json' and body:
+        if handler == 'json' and body and bk != 'hookfail':
             # the trusted decoder has the last word on what the bytes are
             ok, val = trusted_json(body)
             if ok and has_special_float(val):
